@@ -48,6 +48,14 @@ CHECKS = {
    text="Stateless enumeration of all sequences (depth 2 quick / 3 thorough) of adversary lines - every request kind with valid, invalid and absurd arguments (10 kB and 64-level keys, u64::MAX ids/versions, negative numbers), malformed/undecodable lines, unknown variants - interleaved with witness requests and followed by a fixed witness script; the harness is built with debug assertions and overflow checks: the core task must stay alive, undecodable lines must end only the offending session, the witness must get exactly the reference's answers.",
    note="'All byte lines' beyond the alphabet would be fuzzing (another family); the alphabet and depth are stated in the evidence.",
    technique="stateless bounded-exhaustive exploration of the real protocol handler + core task (all line sequences up to depth 2-3, witness-script oracle)"),
+ "C09": dict(cat="exploration", engine="wbmc-core/persist", ref="DESIGN.md §3 C09",
+   text="Exhaustive enumeration of a bounded space of store contents (every single entry over 6 key shapes x 10 JSON values incl. values that look like the file format's tags x plain/CAS at versions 1, 2, 2^53+1, u64::MAX; pairs and triples over a reduced value set) x 4 registration sets x the three on-disk layouts v3/v2/v1 x both toggle states: built through the real API, flushed with the real synchronous(), re-laid-out, loaded through the real load() fall-back chain, and compared key by key (value, kind, version, nothing under $SYS, registrations applied).",
+   note="The reference takes the content at the flush from the instance itself and applies grave goods / last wills with the documented relation; v1 has no registration file.",
+   technique="exhaustive enumeration of a bounded input space through the real flush and load code (round trip oracle)"),
+ "C10": dict(cat="fault_enumeration", engine="wbmc-core/persist + crashfs", ref="DESIGN.md §3 C10",
+   text="Exhaustive crash-point enumeration under the process-crash model: a child process runs a history of 3 (quick) / 4 (thorough) flushes with pairwise distinct stores and registrations under an LD_PRELOAD shim that kills it immediately before each mutating file-system call (plus torn variants of every *.tmp write); from every distinct directory state left behind a second run (load, mutate, flush, mutate, flush) is killed at each of its calls again; after every crash the real load() must recover exactly the last completed or the in-progress flush with that same flush's registrations applied.",
+   note="Completed file operations persist in order, only *.tmp files can be torn (the property's crash model); synchronous flush variant; crash points at the libc boundary.",
+   technique="exhaustive fault (crash-point) enumeration of the real flush/load code with an LD_PRELOAD process-kill injector, two crash levels"),
 }
 
 NOT_YET = {}
